@@ -1,7 +1,7 @@
 /-
   C17 — VRF import/export and Route Target Constraint (RFC 4364 / RFC 4684) as gobgp does it.
 
-  Mirrors (code as repaired by the seven C17 fix commits):
+  Mirrors (code as repaired by the eight C17 fix commits):
     bgp.go   ExtCommRouteTargetKey, RouteTargetMembershipNLRI.RouteTargetKey   -> rtKey / Mem.rt
     policy.go isTransitiveType, CanImportToVrf                                 -> isTransitive / canImport
     path.go  (*Path).ToLocal (VPNv4), (*Path).ToGlobal (IPv4 unicast)          -> toLocal / toGlobal
@@ -285,6 +285,15 @@ def rtcStep (t : Tbl) (s : Rtm) (eorWait : Bool) (m : Mem) (withdraw : Bool) : R
     if withdraw then (s', (cands.filter (fun p => !interested s' p.ecs)).map (fun p => Msg.wd p.nlri))
     else if eorWait then (s', [])
     else (s', cands.flatMap (fun p => rtcFilter s' p false none))
+
+/-- getBestFromLocalCallbackLocked toward the RTC peer (initial / deferred table transfer, soft reset
+    out): every best path through filterpath with no old path -/
+def catchUp (t : Tbl) (s : Rtm) : List Msg := t.bests.flatMap (fun b => rtcFilter s b false none)
+
+/-- processRTCMembership when nothing may be advertised to the peer (needToAdvertise false: the local
+    speaker is restarting and defers its updates): the membership is recorded, nothing is queued -/
+def rtcStepSup (t : Tbl) (s : Rtm) (eorWait : Bool) (m : Mem) (withdraw : Bool) (sup : Bool) : Rtm × List Msg :=
+  if sup then (s.sync m withdraw, []) else rtcStep t s eorWait m withdraw
 
 /-- what the far end holds -/
 abbrev View := Nat × Nat → Option Nat
